@@ -227,6 +227,18 @@ class Gen:
 
     def finish(self):
         c = self.c
+        # two generated transactions with identical signed content are the same transaction (deterministic
+        # ECDSA: same hash): make the later one an explicit replay so that it also shares the VM script
+        seen = {}
+        for i, t in enumerate(self.all):
+            if t.get("replayof"):
+                continue
+            key = tuple(t[f] for f in ("kind", "from", "to", "nonce", "amount", "plen", "gaslimit", "signer", "chainok", "name", "dest"))
+            if key in seen:
+                t["replayof"] = seen[key] + 1
+                t.pop("vm", None)
+            else:
+                seen[key] = i
         # two deploys with the same (creator, nonce) denote the same address: keep one id
         first, alias = {}, {}
         for k in sorted(c["cids"], key=int):
@@ -282,7 +294,7 @@ def gen_case(rng, cid, mode, focus=None, nblocks=None, maxtx=40):
         g.c["blocks"].append(blk)
     if mode == "chain":
         # a block that fails during execution leaves its signature-verification result pending in the
-        # validator (finding F21, see corpus/C04); random chain cases keep such blocks last
+        # validator (finding F23, see corpus/C04); random chain cases keep such blocks last
         for blk in g.c["blocks"][:-1]:
             for t in blk["txs"]:
                 t["force"] = False
